@@ -142,6 +142,19 @@ def build(run):
                             "user": {"verif_enabled": True, "presence_enabled": True, "script": [{"presence": True, "verification": True}]},
                             "ceremonies": g, "schedule": sched})
                 n_exh += exhaustive
+    # three assertions with one credential, one of them suspended after p polls while the other two run to completion one after the
+    # other (so the stored counter is two ahead when it resumes), on every shared store kind
+    for kind in ("arc_mutex_memory", "arc_rwlock_memory", "arc_mutex_ref", "arc_rwlock_ref"):
+        for content in (base, fresh):
+            g = [A(), A(), A()]
+            for paused in range(3):
+                for p in (1, 2, 3):
+                    others = [i for i in range(3) if i != paused]
+                    sched = [paused] * p + [i for i in others for _ in range(polls_of(g[i]))] + [paused] * (polls_of(g[paused]) - p + 1)
+                    scs.append({"mode": "concurrent", "config": {"aaguid": "00" * 16, "counter": True, "id_len": 16, "hmac": None},
+                                "store": {"kind": kind, "disc": "full", "empty_is_err": False, "content": content},
+                                "user": {"verif_enabled": True, "presence_enabled": True, "script": [{"presence": True, "verification": True}]},
+                                "ceremonies": g, "schedule": sched})
     # one store call refused (fault injected at call index k) in strictly sequential runs of two / three assertions and a
     # registration: a refused counter write must fail that assertion, never produce a report the store does not hold
     for kind in kinds[:2]:
